@@ -186,8 +186,10 @@ class AgentWorld(World):
         self.monitors = [self.sig]
         self.stops = 0
         px = self.add_proc('X')
-        cfg = nsx.config.Config(tls_enable=False, node_id='dtn://x/', segment_size_mru=self.params['seg_mru'],
-                                segment_size_tx_initial=self.params['seg_mru'], stop_on_close=self.params['stop_on_close'])
+        xcfg = dict(tls_enable=False, node_id='dtn://x/', segment_size_mru=self.params['seg_mru'],
+                    segment_size_tx_initial=self.params['seg_mru'], stop_on_close=self.params['stop_on_close'])
+        xcfg.update(self.params.get('x_config') or {})        # further settings of X as its operator wrote them
+        cfg = nsx.config.Config(**xcfg)
         cfg._bus_conn = px.bus
 
         def make_agent():
